@@ -78,6 +78,7 @@ pub open spec fn extra_name(i: int) -> Seq<char> {
 }
 
 //@extract fn bigtools/src/bed/autosql.rs bed_autosql
+//@rule R16
 //@sub /-> String/ => -> Out min=1
 //@sub /rest\.is_empty\(\)/ => str_is_empty(rest) min=0
 //@sub /rest\.split\('\\t'\)\.count\(\)/ => tab_columns(rest) min=1
